@@ -22,7 +22,7 @@ from . import classes as cc
 
 
 def stub_pool(C, int_only=False):
-    pool = [('Byte', C.Byte), ('Int16ub', C.Int16ub), ('VarInt', C.VarInt), ('Int8sb', C.Int8sb)]
+    pool = [('Byte', C.Byte), ('Int16ub', C.Int16ub), ('VarInt', C.VarInt), ('Int8sb', C.Int8sb), ("'m'/Int16ub", 'm' / C.Int16ub)]
     if not int_only:
         pool += [('GreedyBytes', C.GreedyBytes), ('Bytes2', C.Bytes(2)), ('Pass', C.Pass), ('Flag', C.Flag), ('Tell', C.Tell),
                  ('Error', C.Error), ('Bytes0', C.Bytes(0)), ('CStringAscii', C.CString('ascii')), ('Const', C.Const(b'\x07'))]
@@ -371,6 +371,19 @@ class NativeCase:
             signal.setitimer(signal.ITIMER_REAL, 0)
             signal.signal(signal.SIGALRM, old)
         kind = res[0]
+        if kind == 'raise' and isinstance(res[1], C.ConstructError):
+            # C18 (derived_path_clause): an error raised by a raise statement of this method while handling a member's
+            # ConstructError keeps the member's path
+            e = res[1]
+            old_e = e.__context__
+            tb = e.__traceback__
+            while tb is not None and tb.tb_next is not None:
+                tb = tb.tb_next
+            direct = tb is not None and tb.tb_frame.f_code is getattr(meth, '__func__', meth).__code__
+            if direct and isinstance(old_e, C.ConstructError) and isinstance(old_e.path, str):
+                if not (isinstance(e.path, str) and e.path.startswith(old_e.path)):
+                    return ('violation', 'raised %s with path %r while handling a member\'s %s whose path was %r (the failing member is no longer named); %s'
+                            % (type(e).__name__, e.path, type(old_e).__name__, old_e.path, self.describe(res)))
         cases = [c for c in self.c.cases_for(self.pre) if c.kind == kind]
         try:
             allowed = [c for c in cases if ev.ev(c.guard(self.pre))]
